@@ -265,8 +265,21 @@ def run_api(case, idx):
                         + "\n".join(['#include "%s.h"' % names[j] for j in m["includes"]]) + "\n" + m["cheader"]
                         + "\n#endif\n")
             f.set_source(n, '#include "%s.h"\n' % n + m["cbody"], include_dirs=[d])
+        # the C sources come from the code generator under test; the C compiler is run on them directly, all
+        # modules in parallel (ffi.compile() chdir()s and cannot run concurrently in one process)
+        import subprocess
+        import sysconfig
+        procs = []
         for f, n in zip(ffis, names):
-            f.compile(tmpdir=d)
+            f.emit_c_code(os.path.join(d, n + ".c"))
+            so = os.path.join(d, n + sysconfig.get_config_var("EXT_SUFFIX"))
+            procs.append((n, subprocess.Popen(
+                ["gcc", "-w", "-O0", "-fPIC", "-shared", "-I" + sysconfig.get_paths()["include"], "-I" + d,
+                 os.path.join(d, n + ".c"), "-o", so], stdout=subprocess.PIPE, stderr=subprocess.STDOUT, text=True)))
+        for n, pr in procs:
+            out, _ = pr.communicate()
+            if pr.returncode:
+                raise RuntimeError("gcc failed on %s: %s" % (n, out[-800:]))
         mods = [importlib.import_module(n) for n in names]
         answers = []
         for q in case["queries"]:
@@ -285,12 +298,24 @@ def run_api(case, idx):
                         answers.append(["val", int(obj)])
                     else:
                         owners = [(j, getattr(mods[j].lib, q["name"])) for j in q["definers"]]
-                        answers.append(answer_identity(obj, owners))
+                        a = answer_identity(obj, owners)
+                        if isinstance(obj, float):
+                            a.append(obj)
+                        answers.append(a)
                 elif q["q"] == "libvar":        # global variable: same address through both libs
                     a = mods[m].ffi.addressof(mods[m].lib, q["name"])
                     owners = [j for j in q["definers"]
                               if mods[j].ffi.addressof(mods[j].lib, q["name"]) == a]
-                    answers.append(["owner", owners[0] if owners else -1])
+                    ok = False
+                    if owners:
+                        j = owners[0]
+                        before = getattr(mods[j].lib, q["name"])
+                        ok = getattr(mods[m].lib, q["name"]) == before                 # read
+                        setattr(mods[m].lib, q["name"], q["write"])                    # write through the including lib
+                        ok = ok and getattr(mods[j].lib, q["name"]) == q["write"] and a[0] == q["write"]
+                        setattr(mods[j].lib, q["name"], before)
+                        ok = ok and getattr(mods[m].lib, q["name"]) == before
+                    answers.append(["owner", owners[0] if owners else -1, bool(ok)])
             except Exception as e:
                 answers.append(["err", exc_name(e)])
         bad = []
